@@ -45,6 +45,9 @@ def configs(tier, seed):
                 out.append(dict(layer='j1', biort=b, magbias=mb, colour=False, H=h, W=w, C=1))
         out.append(dict(layer='j1', biort=b, magbias=0.01, colour=True, H=4, W=4, C=3))
         out.append(dict(layer='j1', biort=b, magbias=0.01, colour=False, H=4, W=6, C=2))
+    # many channels (reshapes that fold channels into the batch)
+    out.append(dict(layer='j1', biort='near_sym_a', magbias=0.01, colour=False, H=2, W=2, C=17))
+    out.append(dict(layer='j1', biort='near_sym_b_bp', magbias=0.01, colour=False, H=2, W=4, C=33))
     j2 = [('near_sym_a', 'qshift_a'), ('near_sym_b_bp', 'qshift_b_bp')] + ([('near_sym_b', 'qshift_b')] if tier == 'thorough' else [])
     for (b, q) in j2:
         out.append(dict(layer='j2', biort=b, qshift=q, magbias=0.01, colour=False, H=8, W=8, C=1))
@@ -53,6 +56,8 @@ def configs(tier, seed):
         out.append(dict(layer='j2', biort='near_sym_a', qshift=q, magbias=0.01, colour=False, H=8, W=8, C=1))
     out.append(dict(layer='j2', biort='near_sym_a', qshift='qshift_a', magbias=0.01, colour=False, H=6, W=7, C=1))
     out.append(dict(layer='j2', biort='near_sym_a', qshift='qshift_a', magbias=0.01, colour=False, H=2, W=8, C=1))
+    out.append(dict(layer='j2', biort='near_sym_a', qshift='qshift_a', magbias=0.01, colour=False, H=7, W=8, C=1))
+    out.append(dict(layer='j2', biort='near_sym_a', qshift='qshift_a', magbias=0.01, colour=False, H=8, W=8, C=2))
     out.append(dict(layer='j2', biort='near_sym_a', qshift='qshift_a', magbias=0.01, colour=True, H=8, W=8, C=3, validate_only=True))
     if tier == 'thorough':
         out.append(dict(layer='j2', biort='near_sym_a', qshift='qshift_a', magbias=0.01, colour=False, H=8, W=16, C=1))
